@@ -48,6 +48,21 @@ fn to_rec(r: &WALRecord<VT>) -> Rec {
     }
 }
 
+struct Pieces<'a> {
+    data: &'a [u8],
+    pos: usize,
+    piece: usize,
+}
+
+impl std::io::Read for Pieces<'_> {
+    fn read(&mut self, out: &mut [u8]) -> std::io::Result<usize> {
+        let n = out.len().min(self.piece).min(self.data.len() - self.pos);
+        out[..n].copy_from_slice(&self.data[self.pos..self.pos + n]);
+        self.pos += n;
+        Ok(n)
+    }
+}
+
 fuzz_target!(|data: &[u8]| {
     let mut rd: &[u8] = data;
     let got = WALRecord::<VT>::decode(&mut rd);
@@ -61,6 +76,12 @@ fuzz_target!(|data: &[u8]| {
             let n = rec.encode(&mut out).expect("encode into a Vec");
             assert_eq!(n, out.len());
             assert_eq!(&out[..], &data[..used], "decoded record does not re-encode to the consumed bytes");
+            // the same bytes delivered in pieces (piece size taken from the input) decode alike
+            let piece = 1 + (data[data.len() - 1] as usize % 9);
+            let mut pr = Pieces { data, pos: 0, piece };
+            let again = WALRecord::<VT>::decode(&mut pr).expect("decoding the same bytes through a piecewise reader");
+            assert_eq!(&to_rec(&again), wrec, "piecewise reader: different record");
+            assert_eq!(pr.pos, used, "piecewise reader: different consumed length");
         }
         (Err(e), Err(we)) => {
             let eof = e.kind() == std::io::ErrorKind::UnexpectedEof;
